@@ -119,3 +119,71 @@ func (e *Engine) libCallEffects(in ssa.CallInstruction, cell func(*ssa.Alloc), h
 		visit(a, 0)
 	}
 }
+
+// closureWrites: the indices of the free variables of closure fn that fn (or a closure it creates over the same
+// variable) may store to, or whose address it hands to a call. A loop that merely creates a closure over a variable
+// does not change that variable; havocking every captured variable at the loop head destroyed, among other things,
+// the identity of a callback parameter captured by an inner closure (fingerRangeView), so that the callback was never
+// executed and closestPrecedingNode was proved only for the "no finger qualifies" case.
+func closureWrites(fn *ssa.Function, busy map[*ssa.Function]bool) map[int]bool {
+	out := map[int]bool{}
+	if fn == nil {
+		return out
+	}
+	if busy[fn] {
+		for i := range fn.FreeVars {
+			out[i] = true
+		}
+		return out
+	}
+	busy[fn] = true
+	defer delete(busy, fn)
+	idx := map[ssa.Value]int{}
+	for i, fv := range fn.FreeVars {
+		idx[fv] = i
+	}
+	root := func(v ssa.Value) (int, bool) {
+		for k := 0; k < 8; k++ {
+			if i, ok := idx[v]; ok {
+				return i, true
+			}
+			switch x := v.(type) {
+			case *ssa.FieldAddr:
+				v = x.X
+			case *ssa.IndexAddr:
+				if _, ok := x.X.Type().Underlying().(*types.Pointer); ok {
+					v = x.X
+				} else {
+					return 0, false
+				}
+			default:
+				return 0, false
+			}
+		}
+		return 0, false
+	}
+	for _, b := range fn.Blocks {
+		for _, in := range b.Instrs {
+			switch x := in.(type) {
+			case *ssa.Store:
+				if i, ok := root(x.Addr); ok {
+					out[i] = true
+				}
+			case *ssa.MakeClosure:
+				inner := closureWrites(x.Fn.(*ssa.Function), busy)
+				for j, bnd := range x.Bindings {
+					if i, ok := root(bnd); ok && inner[j] {
+						out[i] = true
+					}
+				}
+			case ssa.CallInstruction:
+				for _, a := range x.Common().Args {
+					if i, ok := root(a); ok {
+						out[i] = true // the variable's address is passed on
+					}
+				}
+			}
+		}
+	}
+	return out
+}
